@@ -512,7 +512,32 @@ func originCall(v ssa.Value) *ssa.Call {
 	return nil
 }
 
+// c09FormatStrings: a frame must never be used as a format string — fmt.Fprintf(w, frame) re-interprets every '%' of
+// the payload ("50% done" becomes "50%!d(MISSING)one"). Every Fprintf whose destination is a stream has a constant format.
+func c09FormatStrings(c *Ctx, rule string) {
+	n := 0
+	for _, fn := range c.P.LibFns {
+		ir.EachCall(fn, func(call ssa.CallInstruction) {
+			if ir.CallName(call) != "fmt.Fprintf" {
+				return
+			}
+			args := call.Common().Args
+			if len(args) < 2 {
+				return
+			}
+			n++
+			_, isConst := ir.ConstStr(args[1])
+			c.R.Check(isConst, rule, "format of Fprintf in "+fname(fn), c.Pos(call.Pos()), "constant format string",
+				sprintf("%s passes a computed string as the FORMAT of fmt.Fprintf to a stream: any '%%' in the payload is re-interpreted as a verb and the frame arrives mangled", fname(fn)))
+		})
+	}
+	if n == 0 {
+		c.R.Hold(rule, "no Fprintf to a stream", "", "frames are written with Fprint/Write")
+	}
+}
+
 func checkC09Payload(c *Ctx) {
+	c09FormatStrings(c, "R-payload")
 	// (a) fmt.Fprintf(w, "...data: %s...", payload): payload must come from json.Marshal
 	// (b) functions that write a payload followed by "\n" to an io.Writer param (stdio line writer): payload from json.Marshal
 	for _, fn := range c.P.LibFns {
